@@ -111,6 +111,19 @@ func uniText(r *rand.Rand, n int) string {
 	return sb.String()
 }
 
+// c15EmptySubs gives some leaves an empty (non-nil) SubLocations slice.
+func c15EmptySubs(l *poly.Location, r *rand.Rand) {
+	if len(l.SubLocations) == 0 {
+		if r.Intn(2) == 0 {
+			l.SubLocations = []poly.Location{}
+		}
+		return
+	}
+	for i := range l.SubLocations {
+		c15EmptySubs(&l.SubLocations[i], r)
+	}
+}
+
 func randAnnotated(r *rand.Rand) poly.Sequence {
 	var s poly.Sequence
 	L := 1 + r.Intn(400)
@@ -154,6 +167,9 @@ func randAnnotated(r *rand.Rand) poly.Sequence {
 	for i := 0; i < nf; i++ {
 		x := randLoc(r, r.Intn(5), L)
 		loc := toStruct(x, r.Intn(2) == 0)
+		if r.Intn(4) == 0 {
+			c15EmptySubs(&loc, r) // a span may carry an empty, non-nil list of sub locations: still a span
+		}
 		if r.Intn(6) == 0 {
 			// a node that is neither join nor complement and holds exactly one sub location is a value like any
 			// other (it reports its child's bases); it must come back as it was written
